@@ -70,11 +70,22 @@ func (s *SessionStore) Load(req *http.Request) (*sessions.SessionState, error) {
 // Clear clears any saved session information by writing a cookie to
 // clear the session
 func (s *SessionStore) Clear(rw http.ResponseWriter, req *http.Request) error {
+	cleared := map[string]struct{}{}
 	for _, c := range req.Cookies() {
 		if s.isSessionCookieName(c.Name) {
 			clearCookie := s.makeCookie(req, c.Name, "", time.Hour*-1)
 
 			http.SetCookie(rw, clearCookie)
+			cleared[c.Name] = struct{}{}
+		}
+	}
+
+	// also expire session cookies that this response has already set, e.g. a
+	// session saved by a refresh whose validation failed afterwards
+	for _, c := range (&http.Response{Header: rw.Header()}).Cookies() {
+		if _, done := cleared[c.Name]; !done && c.MaxAge >= 0 && s.isSessionCookieName(c.Name) {
+			http.SetCookie(rw, s.makeCookie(req, c.Name, "", time.Hour*-1))
+			cleared[c.Name] = struct{}{}
 		}
 	}
 
